@@ -29,7 +29,8 @@ CHECKS["C09"] = {
  "text": "Bounded symbolic verification (M1): the six SqliteStorage methods run for real over a symbolic 3-row relation; the SQL text they pass at run time is "
          "interpreted symbolically and every result/exception/post-state is compared with a (tag,id)->bytes map by z3 validity queries, from an arbitrary table "
          "(inductive step) and for 2-call sequences; each path is cross-checked on real in-memory SQLite. MockStorage: real class under solver-enumerated 3-4 call "
-         "sequences with re-open. On-disk durability and concurrent callers are outside this technique and not claimed.",
+         "sequences with re-open. The on-disk backend is additionally run for real on a temporary file under solver-enumerated call sequences with one injected OperationalError "
+         "(reconnect path) and close/reopen: acknowledged writes must be exactly what a fresh connection sees. Crash durability and concurrent callers are outside and not claimed.",
  "technique": "bounded symbolic execution of SqliteStorage over a z3-encoded relation with run-time SQL interpretation; z3 validity queries against a map model; per-path translation validation on real SQLite"}
 CHECKS["C16"] = {
  "text": "(a) Bounded symbolic verification (M1, linear integer arithmetic) of the filesystem provider's hash kernel: file length is a z3 integer, reads are index "
